@@ -95,7 +95,9 @@ def build(sc):
             n.listen_ca(ca, tag="ca%d" % a)
             lst.append({"tag": "ca%d" % a, "kind": "ca", "adr": a})
         for L in nd.get("lst", []):
-            n.listen(L["adr"] if L["kind"] == "int" else None, tag=L["tag"])
+            if not hasattr(sim, "listener_cbs"):
+                sim.listener_cbs = {}
+            sim.listener_cbs[(nd["name"], L["tag"])] = n.listen(L["adr"] if L["kind"] == "int" else None, tag=L["tag"])
             lst.append({"tag": L["tag"], "kind": L["kind"], "adr": L.get("adr", -1)})
         default_bam = 50000 if dll == "j1939-21" else 10000
         cfg[nd["name"]] = {"maxc": nd.get("maxc", 1),
@@ -117,6 +119,8 @@ def build(sc):
 def run(sc):
     """execute the scenario on the real code; returns the trace dict for validation"""
     sim, cfg = build(sc)
+    import copy
+    cfg0 = copy.deepcopy(cfg)
     drops = set(sc.get("drop", []))
     sil = {s["node"]: s["from"] for s in sc.get("silence", [])}
 
@@ -173,6 +177,8 @@ def run(sc):
         stim.append((s["t"], 2, s))
     for s in sc.get("timers", []):
         stim.append((s["t"], 3, s))
+    for s in sc.get("unsub", []):
+        stim.append((s["t"], 5, s))
     for s in sc.get("sends", []):
         stim.append((s["t"], 0, s))
     for s in sc.get("inject", []):
@@ -181,6 +187,13 @@ def run(sc):
     for t, kind, s in stim:
         if t0 + t > sim.now_us:
             sim.run(t0 + t - sim.now_us)
+        if kind == 5:           # an ECU-level listener is unsubscribed: its address is no longer owned
+            n = sim.node(s["node"])
+            cbs = sim.listener_cbs[(s["node"], s["tag"])]
+            n.ecu.unsubscribe(cbs)
+            cfg[s["node"]] = dict(cfg[s["node"]], lst=[L for L in cfg[s["node"]]["lst"] if L["tag"] != s["tag"]])
+            sim.log({"ev": "cfg", "node": s["node"], "cfg": cfg[s["node"]]})
+            continue
         if kind == 4:
             what, dm_s, src_cb, snd = s
             n = sim.node(snd["node"])
@@ -231,4 +244,4 @@ def run(sc):
               "bus": not (sc.get("drop") or sc.get("silence") or sc.get("hostile"))}
     expect.update(sc.get("expect", {}))
     sim.peer_objs = peers
-    return {"cfg": cfg, "ev": sim.trace, "expect": expect, "meta": {"scenario": sc}}, sim
+    return {"cfg": cfg0, "ev": sim.trace, "expect": expect, "meta": {"scenario": sc}}, sim
